@@ -193,8 +193,51 @@ Fixpoint to_cond (c : sc) : option cond :=
   end.
 
 (* ---- the implicit last probability as the parser builds it ---------------------------------
-   structure_transformer._assign_categorical: last_param = "1-" + "-".join(probabilities),
-   i.e. the token list  1 - <p1> - <p2> ... of the probability texts AS WRITTEN. *)
+   (a) structure_transformer._assign_categorical since /repo commit 1ab34b4: every listed
+       probability text is handed to the CAS parser ON ITS OWN and the last one is 1 - sum(given). *)
+Fixpoint parse_all (ts : list (list tok)) : option (list sx) :=
+  match ts with
+  | [] => Some []
+  | t :: r => match parse_expr t, parse_all r with Some e, Some es => Some (e :: es) | _, _ => None end
+  end.
+Definition sum_sx (ps : list sx) : sx := fold_right XAdd (XNum 0 0) ps.
+Definition implicit_fixed (ts : list (list tok)) : option sx :=
+  option_map (fun ps => XSub (XNum 1 0) (sum_sx ps)) (parse_all ts).
+
+Lemma parse_all_spellings : forall ps ts, Forall2 (pr 0) ps ts -> parse_all ts = Some ps.
+Proof.
+  induction 1 as [|p t ps ts Hp Hps IH]; [reflexivity|].
+  cbn [parse_all]. rewrite (parse_spelling _ _ Hp), IH. reflexivity.
+Qed.
+
+Lemma numval_0 : numval 0 0 = 0.
+Proof. apply Qc_is_canon. reflexivity. Qed.
+Lemma numval_1 : numval 1 0 = 1.
+Proof. apply Qc_is_canon. reflexivity. Qed.
+
+Lemma sum_sx_eval : forall ps s vs, Forall2 (fun p v => sx_eval p s = Some v) ps vs ->
+  sx_eval (sum_sx ps) s = Some (fold_right Qcplus 0 vs).
+Proof.
+  induction 1 as [|p v ps vs Hp Hps IH]; cbn [sum_sx fold_right sx_eval].
+  - rewrite numval_0. reflexivity.
+  - fold (sum_sx ps). rewrite Hp, IH. reflexivity.
+Qed.
+
+(* for EVERY spelling of the listed probabilities (sums, differences, any parentheses) the
+   omitted probability is 1 - (p1 + ... + pk) *)
+Theorem implicit_last_parsed_separately : forall ps ts, Forall2 (pr 0) ps ts ->
+  implicit_fixed ts = Some (XSub (XNum 1 0) (sum_sx ps)) /\
+  forall s vs, Forall2 (fun p v => sx_eval p s = Some v) ps vs ->
+    sx_eval (XSub (XNum 1 0) (sum_sx ps)) s = Some (1 - fold_right Qcplus 0 vs).
+Proof.
+  intros ps ts H. split.
+  - unfold implicit_fixed. rewrite (parse_all_spellings _ _ H). reflexivity.
+  - intros s vs Hv. cbn [sx_eval]. rewrite (sum_sx_eval _ _ _ Hv), numval_1. reflexivity.
+Qed.
+
+(* (b) the construction used before that commit: last_param = "1-" + "-".join(probabilities),
+   i.e. the token list  1 - <p1> - <p2> ... of the probability texts AS WRITTEN.  Kept as the
+   regression witness the check uses to recognise that defect. *)
 Definition implicit_tokens (ps : list (list tok)) : list tok :=
   TNum 1 0 :: concat (map (fun t => TMinus :: t) ps).
 Definition implicit_sx (ps : list sx) : sx := fold_left XSub ps (XNum 1 0).
